@@ -50,6 +50,9 @@ A vf_asnap; A *vf_asnap_of;
 #include "vf_handler.h"
 #define ARB(v) VF_INPUT(V, v); __CPROVER_assume(WF(v))
 #endif
+#if VF_N == 0
+#include "vf_handler.h"   /* the <T,0> specialisation reaches the handler since the fix of C05_ipv0_unreachable */
+#endif
 #define CAPACITY_UNCHANGED(v) VF_ASSERT(v_capacity(&(v)) == N && v_max_size(&(v)) == N, "capacity() and max_size() are always N")
 
 #if VF_N > 0 && !VF_UC
@@ -158,15 +161,16 @@ void h_zero(void) { VF_INPUT(V, v); VF_INPUT(V, t); VF_INPUT(T, x); VF_INPUT(uns
   v_clear(&v); if (op & 4) v_copy_ctor(&t, &v); else v_move_ctor(&t, &v);
   VF_ASSERT(v_size(&v) == 0 && v_empty(&v) && v_size(&t) == 0 && v_empty(&t), "inplace_vector<T,0>: clear/copy/move keep it empty"); VF_REACH(); }
 
-/* C05 on the <T,0> specialisation: every call of front/back/operator[]/pop_back/unchecked_* violates the precondition (the vector is always empty and full).
- * The specialisation has no TETL_PRECONDITION: it executes etl::unreachable() (__builtin_unreachable, UB) instead of invoking the handler, so the
- * handler (and struct assert_msg) is not even instantiated in this variant; the whole group is the witness class of the finding, hence reach=0. */
-/*@GROUP name=viol_zero props=C05 kind=F reach=0 when=(VF_N==0)*(VF_UC==0)@*/
+/* C05 on the <T,0> specialisation: every call of front/back/operator[]/pop_back/unchecked_* violates the precondition (the vector is always
+ * empty and full): each must reach the assertion handler (the object is empty: there is nothing to snapshot).  On the pinned tree the
+ * specialisation executed etl::unreachable() instead (finding C05_ipv0_unreachable, repaired). */
+/*@GROUP name=viol_zero props=C05 kind=F when=(VF_N==0)*(VF_UC==0)@*/
 void h_viol_zero(void) { VF_INPUT(V, v); VF_INPUT(T, x); VF_INPUT(unsigned char, op); VF_INPUT(unsigned long, i); v_default(&v);
   VF_KNOWN(C05_ipv0_unreachable, 1);
+  vf_expect_handler = 1;
   if (op == 0) v_pop_back(&v); else if (op == 1) v_back(&v); else if (op == 2) v_front(&v); else if (op == 3) v_cback(&v); else if (op == 4) v_cfront(&v);
   else if (op == 5) v_index(&v, i); else if (op == 6) v_cindex(&v, i); else if (op == 7) v_unchecked_push_back(&v, &x); else if (op == 8) v_unchecked_push_back_rv(&v, x); else v_unchecked_emplace_back(&v, x);
-  __CPROVER_assert(0, "C05: call with violated precondition returned normally instead of reaching the assertion handler"); }
+  VF_NORETURN_EXPECTED(); }
 
 /* ---- size-type boundary: inplace_vector<unsigned char, 254/255/256>, loop-free members; elements quantified by the symbolic index k ---- */
 /*@GROUP name=uc_ctor props=C01,C02 kind=F tier=thorough when=VF_UC==1@*/
